@@ -94,8 +94,9 @@ impl World {
             }
             NetEv::S2CReset => {
                 let mut n = self.net.lock().unwrap();
-                n.rd_err = Some(io::ErrorKind::ConnectionReset);
-                n.wr_err = Some(io::ErrorKind::ConnectionReset);
+                let k = crate::stream::ERR_KINDS[n.cfg.err_kind % crate::stream::ERR_KINDS.len()];
+                n.rd_err = Some(k);
+                n.wr_err = Some(k);
                 n.stats.rd_err_injected += 1;
                 simrt::trace("net.reset", 0, 0);
                 n.announce();
